@@ -308,7 +308,28 @@ def case_svd(ctx, inp):
         ctx.branch("truncate")
 
 
-CASES = {"tensordot": case_tensordot, "prod": case_prod, "einsum": case_einsum, "contract": case_contract,
+def case_joint(ctx, inp):
+    """different contractions of the SAME operands computed in one graph keep their own results"""
+    da = _da()
+    a, b = arr(inp["a"]), arr(inp["b"])
+    x = da.from_array(a, chunks=tuple(tuple(c) for c in inp["ca"]))
+    y = da.from_array(b, chunks=tuple(tuple(c) for c in inp["cb"]))
+    arrs = []
+    for it in inp["items"]:
+        if it["fn"] == "tensordot":
+            arrs.append(da.tensordot(x, y, axes=(tuple(it["axes"][0]), tuple(it["axes"][1]))))
+        elif it["fn"] == "einsum":
+            arrs.append(da.einsum(it["sub"], x, y))
+        else:
+            arrs.append(getattr(da, it["fn"])(x, y))
+    bad = U.joint_vs_solo(arrs)
+    for i in bad:
+        ctx.fail("a contraction computed together with others differs from the same contraction computed alone",
+                 observed={"item": inp["items"][i], "name": arrs[i].name})
+    ctx.branch(f"joint×{len(arrs)}")
+
+
+CASES = {"joint": case_joint, "tensordot": case_tensordot, "prod": case_prod, "einsum": case_einsum, "contract": case_contract,
          "tsqrplan": case_tsqrplan, "qr": case_qr, "svd": case_svd}
 
 
@@ -456,7 +477,23 @@ def gen_qr_svd(ctx, n, which):
         yield which, {"a": enc(a), "chunks": chunks}
 
 
+def gen_joint(ctx, n):
+    rng = ctx.rng
+    for _ in range(n):
+        k = rng.randint(1, 4)
+        a = _rand(rng, [k, k], rng.choice(["int64", "float64"]))
+        b = _rand(rng, [k, k], "int64")
+        items = rng.sample([{"fn": "tensordot", "axes": [[1], [0]]}, {"fn": "tensordot", "axes": [[0], [0]]},
+                            {"fn": "tensordot", "axes": [[1], [1]]}, {"fn": "tensordot", "axes": [[0, 1], [0, 1]]},
+                            {"fn": "tensordot", "axes": [[0, 1], [1, 0]]}, {"fn": "dot"}, {"fn": "matmul"},
+                            {"fn": "einsum", "sub": "ij,jk->ik"}, {"fn": "einsum", "sub": "ij,kj->ik"},
+                            {"fn": "einsum", "sub": "ij,ij->ij"}, {"fn": "einsum", "sub": "ij,ij->"}], rng.randint(3, 6))
+        yield "joint", {"a": enc(a), "b": enc(b), "ca": [list(c) for c in U.rand_chunks(rng, [k, k])],
+                        "cb": [list(c) for c in U.rand_chunks(rng, [k, k])], "items": items}
+
+
 def generate(ctx):
+    yield from gen_joint(ctx, ctx.n(50, 500))
     yield from gen_contract(ctx, ctx.n(200, 2000))
     yield from gen_tsqrplan(ctx, ctx.n(120, 1200))
     yield from gen_tensordot(ctx, ctx.n(200, 2500))
